@@ -25,6 +25,8 @@ ArithOK ==
     /\ (a >= b => V(Sub(N(a), N(b))) = a - b)
     /\ Cmp(N(a), N(b)) = Sgn(a - b)
     /\ V(MulSmall(N(a), b % 10)) = a * (b % 10)
+    /\ V(Halve(N(a))) = a \div 2 /\ IsEven(N(a)) = (a % 2 = 0)
+    /\ (a > 0 => LET o == V(OddPart(N(a))) IN o % 2 = 1 /\ a % o = 0 /\ \E k \in 0..12 : o * 2 ^ k = a)
     /\ V(Shl(N(a), b % 4)) = a * 10 ^ (b % 4)
     /\ LET sa == SOfInt(a - (Limit \div 2))  sb == SOfInt(b - (Limit \div 2))
            ia == a - (Limit \div 2)          ib == b - (Limit \div 2) IN
